@@ -152,6 +152,16 @@ def run(tier):
             jobs.append((c, True, combos + tl_small))
         for c in extra:
             jobs.append((c, False, combos[::4]))
+        # every code of the generated language and every realistic code meets a short list of probes: well-formed but absurd
+        # entries next to plausible ones - a code that a changed pattern sends down the wrong branch (seed C12-g: two-digit
+        # hurdles treated as fixed-duration races) must not depend on being drawn into the sample above
+        PROBES = [(t, None, None) for t in ('0', '0.5', '3.0', '9.58', '12.34', '59.99', '1:03.50', '2:05:30', '2:05:30.5', '99999',
+                                             '100', 'nan', '1e5', 'inf', '-5', '', '7654', '45.6', '4:30')]
+        done = set(CODES) | set(extra)
+        wide = [c for c in sorted(set(codes) | set(lang.REALISTIC)) if c not in done and len(c) <= 10 and c == c.strip()]
+        for c in wide[::3 if quick else 1]:
+            jobs.append((c, False, PROBES))
+        rep.setcov('codes_probed', len(wide[::3 if quick else 1]))
         # spelling groups (letter case): one process serves all spellings of a discipline, in rotating and reversed order
         for c in CODES:
             grp = []
